@@ -15,3 +15,15 @@ Theorem c06_init_agrees_with_matcher :
   forall (a : N -> bool) (q : query), ca_matches a (access_of q) = (if arch_state a q then true else false).
 Proof. exact init_agrees_with_matcher. Qed.
 Print Assumptions c06_init_agrees_with_matcher.
+
+Require Import EV.World EV.SlotMap EV.Store EV.Member EV.Listen EV.Fetch.
+
+(* world level: through the fetcher caches of a live handler, a query yields exactly the entities
+   of the archetypes it matches (amatch a q = arch_state succeeds = qmatch, by the theorems above) *)
+Theorem c06_fetcher_yields_exactly_the_matching_entities :
+  forall (w : world) (hk : key) (h : hinfo) (p : rparam) (q : query) (c : list centry),
+    XI w -> hlive w hk h -> In p (h_params h) -> pquery p = Some (q, c) ->
+    exists its, cache_items w q true c = inr its /\
+      forall k, In k (map fst its) <-> exists ai a row vals, arch_at w ai = Some a /\ amatch a q = true /\ nget (a_rows a) row = Some (k, vals).
+Proof. exact handler_view_exact. Qed.
+Print Assumptions c06_fetcher_yields_exactly_the_matching_entities.
